@@ -34,6 +34,10 @@ def calls_for(rng, decl, it):
     return c + list(vals)       # declared ones again at the end (same object every time, after unrecognised ones were built)
 
 
+def decl_by0(jobs, name):
+    return next(j['decl'] for j in jobs if j.get('cls') == name)
+
+
 def run(tier):
     C = Check('C14', tier)
     C.prove('Properties/C14.v')
@@ -61,6 +65,12 @@ def run(tier):
                   A('xs', enames[0], length='2'), L('n', 'char'), A('ys', enames[1] + ':' + wider(under[enames[1]]), length='n'),
                   F('o', enames[3], optional='true'), A('zs', enames[3], optional='true')]
         t['net']['structs'].append({'name': 'EnumHolder', 'body': holder})
+        # a switch on an enum field: a case for a declared member, and a case addressed BY NUMBER for an ordinal the enum does not name
+        # (how a spec keeps the data of a value only newer protocol versions name)
+        d0 = decl_by0(jobs, enames[0])
+        free = next(z for z in range(0, 254) if z not in [v for _, v in d0])
+        t['net']['structs'].append({'name': 'EnumSwitch', 'body': [F('k', enames[0]), SW('k', CASE(d0[0][0], F('m', 'short')),
+                                                                                  CASE(str(free), F('u', 'three'), F('w', enames[1]))), F('after', 'char')]})
         decl_by = {j['cls']: j['decl'] for j in jobs}
 
         def ev(name, it):
@@ -75,6 +85,20 @@ def run(tier):
                                           ['ys', {'l': [ev(enames[1], wb) for _ in range(rng.randrange(0, 4))]}],
                                           ['o', ev(enames[3], under[enames[3]])], ['zs', {'l': [ev(enames[3], under[enames[3]]) for _ in range(rng.randrange(1, 4))]}]]}
             jobs.append(dict(op='ser', cls='EnumHolder', value=v, san=False, then_deser=True, mutants=0, how='struct-fields'))
+        # read-then-write on hostile bytes (0x00 decodes to digit -1, 0xFE ends a number, 0xFF is digit 254): whatever the reader hands out,
+        # writing it back behaves as the reference semantics says - in particular an unrecognised ordinal read from the wire can be written again
+        for cls_, n_ in (('EnumHolder', 24), ('EnumSwitch', 10)):
+            for _ in range(8):
+                data = [rng.choice([0, 0, 1, 2, 8, 0xFE, 0xFF, free + 1, rng.randrange(256)]) for _ in range(rng.randrange(1, n_))]
+                jobs.append(dict(op='deser', cls=cls_, data=data, chunked=False, reser=True, how='read-then-write'))
+        vg0 = ValueGen(t, rng)
+        for kv, dcls, df in ((free, f"EnumSwitch.KData{free}", [['u', {'i': rng.randrange(0, 1000)}], ['w', ev(enames[1], under[enames[1]])]]),
+                             (d0[0][1], f"EnumSwitch.KData{d0[0][0]}", [['m', {'i': rng.randrange(0, 60000)}]]),
+                             (next(z for z in range(free + 1, 254) if z not in [v_ for _, v_ in d0]), None, None)):
+            v = {'o': 'EnumSwitch', 'f': [['k', {'e': enames[0], 'v': kv}], ['k_data', {'o': dcls, 'f': df} if dcls else None], ['after', {'i': rng.randrange(0, 253)}]]}
+            jobs.append(dict(op='ser', cls='EnumSwitch', value=v, san=False, then_deser=True, mutants=0, how='struct-fields'))
+        jobs.append(dict(op='deser', cls='EnumSwitch', data=[free + 1, 5, 6, 7, 9, 11], chunked=False, reser=True, how='read-then-write'))
+        jobs.append(dict(op='deser', cls='EnumSwitch', data=[d0[0][1] + 1, 5, 6, 7, 9, 11] if 0 <= d0[0][1] < 252 else [1], chunked=False, reser=True, how='read-then-write'))
         # the two skeleton enums, which every tree has
         jobs.append(dict(op='enum', cls='PacketFamily', calls=calls_for(rng, [('Init', 255), ('Talk', 18), ('Welcome', 5)], 'byte'), decl=[('Init', 255), ('Talk', 18), ('Welcome', 5)], how='generated'))
         for j in range(3):
@@ -116,8 +140,15 @@ def run(tier):
                                 C.violation(f"deserialized enum field {k} holds {h_}, not an instance of {w_['e']}",
                                             dict(unit='generated enum fields', input=dict(xml=tree_xml(e['tree']), value=job['value'])))
                     gen_cases.setdefault(id(e), (e, []))[1].append(ser_case(job, {k: v for k, v in out.items() if k != 'deser'}))
-                    gen_cases[id(e)][1].append(deser_case('EnumHolder', d))
+                    gen_cases[id(e)][1].append(deser_case(job['cls'], d))
                 hows['struct-fields'] = hows.get('struct-fields', 0) + 1
+                continue
+            if job['op'] == 'deser':
+                hows['read-then-write'] = hows.get('read-then-write', 0) + 1
+                if 'res' in out and not out.get('heavy'):
+                    gen_cases.setdefault(id(e), (e, []))[1].append(deser_case(job['cls'], out))
+                    if 'reser' in out:
+                        gen_cases[id(e)][1].append(ser_case(dict(cls=job['cls'], value=strip_bs(out['res'][1]), san=False), out['reser']))
                 continue
             if 'obs' not in out:
                 C.violation(f"constructing a protocol enum failed ({job['how']}): {out}", dict(unit='protocol_enum_meta', input=dict(decl=job['decl'], calls=job['calls'])))
@@ -151,5 +182,29 @@ def run(tier):
 
 
 def replay(path):
-    print("replay: the replay file holds the declaration and the call sequence; re-run `./bin/check C14 quick`")
-    return 0
+    r = json.load(open(path))
+    inp = r.get('input')
+    if not inp:
+        return replay_broken(r, 'C14')
+    if isinstance(inp, dict) and 'decl' in inp and 'calls' in inp:
+        # the enum is rebuilt with the functional API from the recorded declaration and the recorded calls are made again
+        s_ = Scratch()
+        load_leaf(s_.src, 'eolib.protocol.protocol_enum_meta')
+        import gen_driver
+        try:
+            out = gen_driver.do_enum(None, dict(functional=[[('None_' if n == 'None' else n), v] for n, v in inp['decl']], calls=inp['calls']))
+            probs = out['problems']
+        except BaseException as ex:
+            probs = [f"{type(ex).__name__}: {ex}"]
+        print("replay:", probs[0] if probs else "property holds on this input")
+        return 1 if probs else 0
+    if isinstance(inp, dict) and 'xml' in inp and 'value' in inp:
+        S = Scratch()
+        runner = GenRunner(S, workers=1)
+        job = dict(op='ser', cls=inp['value']['o'], value=inp['value'], san=False, then_deser=True, mutants=0)
+        res = runner.run([dict(id=0, files=inp['xml'], jobs=[job])])[0]
+        out = (res.get('results') or [{}])[0]
+        ok = bool(res.get('accepted')) and impl_roundtrip_ok(job, out)
+        print("replay:", "property holds on this input" if ok else f"enum-typed fields do not survive write-then-read: {json.dumps(out)[:600]}")
+        return 0 if ok else 1
+    return replay_broken(r, 'C14')
